@@ -38,6 +38,8 @@ type World struct {
 	discovering bool
 	axioms      []*compiledAxiom
 	axiomsUsed  map[string]bool
+	sliceKeyElem map[string]types.Type
+	globalSorts  map[string]string
 }
 
 type FieldInfo struct {
@@ -61,6 +63,14 @@ type UFunc struct {
 }
 
 func newWorld(P *Program) *World {
+	w := newWorld0(P)
+	w.sliceKeyElem = map[string]types.Type{}
+	w.globalSorts = map[string]string{}
+	gWorld = w
+	return w
+}
+
+func newWorld0(P *Program) *World {
 	return &World{P: P, structs: map[string]*StructSort{}, bySortName: map[string]*StructSort{}, boxed: map[string]bool{},
 		typeIDs: map[string]int{}, ufuncs: map[string]*UFunc{}, usorts: map[string]bool{},
 		heapSorts: map[string]string{}, axiomsUsed: map[string]bool{}, assumptions: map[string]bool{}, uncontracted: map[string]bool{}, libUsed: map[string]bool{}}
